@@ -121,6 +121,14 @@ theorem lookup_set {ctx : Scope} {st st2 : St} {name : Bytes} {v : Value} (hown 
       simp only [hk', Bool.false_eq_true, if_false]
       exact other (f :: r) hk'
 
+theorem set_out {ctx : Scope} {st st2 : St} {k : Bytes} {v : Value} (h : Eval.set ctx st k v = some st2) : st2.out = st.out := by
+  cases ctx with
+  | nil => simp [Eval.set] at h
+  | cons f r =>
+    simp only [Eval.set] at h
+    cases hs : heapSet st.heap f.ref k v with
+    | mk h' ro => rw [hs] at h; simp only [Option.some.injEq] at h; rw [← h]
+
 /-- a freshly pushed frame binds nothing -/
 theorem lookup_push (ctx : Scope) (st : St) (hok : Props.C02.ScopeOk ctx st) (k : Bytes) :
     lookup (push ctx st).2.heap (push ctx st).1 k = lookup st.heap ctx k := by
